@@ -10,7 +10,7 @@ func loadExtra(spec famSpec) *family {
 		return nil
 	}
 	cs := f09.Load(spec.Cases)
-	return &family{"f09", len(cs), func(s *sink) runner {
+	return &family{"f09", len(cs), func(s *sink, g, n int) runner {
 		r := f09.NewRunner(s)
 		r.Prebind(cs) // before the goroutines meet at the start barrier
 		return runner{func(i int) { r.Run(&cs[i]) }, r.Finish}
